@@ -126,6 +126,9 @@ def exact_cases(tier, seed, algos=('signed', 'fvs', 'iso')):
             cases += random_slices(algo, seed, 16 if algo != 'iso' else 8, 2)
             if algo == 'signed':
                 cases += random_slices(algo, seed, 6, 3)
+    if tier == 'thorough':
+        # second, independent optimality formulation (no invertible GF(2) transform of the basis is lighter) on the 4-vertex cases
+        cases = [c + ' matrix=1' if (' n=4 ' in c and 'sym=all' in c) else c for c in cases]
     return cases
 
 
